@@ -76,8 +76,10 @@ ResultEntries(R, i) ==     \* formula-0 is the first effective formula
 VARIABLES pc, i, printed, archive
 cvars == <<pc, i, printed, archive>>
 NoArchive == [written |-> FALSE]
+OldArchive == [written |-> FALSE, old |-> TRUE]    \* history: the output path already holds an archive of an earlier run
 
-CInit == pc = "start" /\ i = 1 /\ printed = <<>> /\ archive = NoArchive
+CInitWith(oldThere) == pc = "start" /\ i = 1 /\ printed = <<>> /\ archive = IF oldThere THEN OldArchive ELSE NoArchive
+CInit == CInitWith(FALSE)
 
 Fail(R) ==          \* every failure: one message, nothing else, ends the run (exit status 0)
   /\ pc = "start" /\ FailsAt(R) # "none"
@@ -108,6 +110,9 @@ InOrder ==
     (a < b /\ printed[a].what # "message" /\ printed[b].what # "message") => printed[a].idx <= printed[b].idx
 (* a failed run printed exactly one message and evaluated nothing *)
 FailQuiet == pc = "failed" => printed = <<Message>> /\ ~archive.written
+(* a failed run leaves whatever was at the output path alone; a written archive REPLACES what was there *)
+FailKeepsOld == pc = "failed" => archive \in {NoArchive, OldArchive}
+Replaced     == archive.written => DOMAIN archive = {"written", "sets", "formulae"}
 (* a finished run reported every formula (unless no-print) and archived every result *)
 Complete(R) ==
   pc = "done" =>
